@@ -242,7 +242,7 @@ def St.unregister (st : St) (k : Key) (e : CE) : St :=
 /-! ## PerSubsystemInfo::restoreToStage (the part local to the subsystem) -/
 
 def Sub.restore (sb : Sub) (g : Nat) : Sub :=
-  if sb.cur ≤ g then sb
+  if sb.cur ≤ g then { sb with ces := sb.ces.map (fun e => e.unfresh g sb.cur) }   -- early return; ghost only
   else if g = 0 then {}            -- initialize(): all stacks cleared, stage versions reset to 1
   else { sb with
     cur := g,
